@@ -71,6 +71,7 @@ def REQUIRED(tier):
         "kabsch.calls": 1000,
     }
     req = {name: n * k for name, n in req.items()}
+    req["oracle.stale-view"] = 60 * k
     req["realistic.cdxml-molecules"] = 50
     return req
 
@@ -102,6 +103,8 @@ def plan(tier, seed):
                       "max_bonds": 8 if q else 10 ** 6})
     for i in range(16 if q else 64):
         specs.append({"kind": "align", "chunk": i, "n": 30 if q else 100})
+    for i in range(4 if q else 16):
+        specs.append({"kind": "staleview", "chunk": i, "n": 40 if q else 150})
     specs.append({"kind": "realistic", "chunk": 0})
     if not q:  # ~16 s of one core for ~240 contract evaluations: thorough only
         specs.append({"kind": "testsuite", "chunk": 0, "timeout": 900})
@@ -111,7 +114,7 @@ def plan(tier, seed):
         if sp["kind"] not in seen:
             seen.add(sp["kind"])
             first.append(sp)
-    order = {"dihedral": 0, "align": 1, "ens": 2, "geom": 3, "rotvec": 4, "rotaxis": 5, "realistic": 6, "testsuite": -1}
+    order = {"dihedral": 0, "align": 1, "ens": 2, "geom": 3, "rotvec": 4, "rotaxis": 5, "realistic": 6, "testsuite": -1, "staleview": 7}
     first.sort(key=lambda sp: order[sp["kind"]])
     return first + [sp for sp in specs if not any(sp is f for f in first)]
 
@@ -1368,7 +1371,86 @@ def chunk_testsuite(spec, ctx):
         ctx.violation(f"{key}:during:repository-test-suite", case=case, by="contract", test=test, message=msg)
 
 
-KINDS = {"testsuite": chunk_testsuite, "rotvec": chunk_rotvec, "rotaxis": chunk_rotaxis, "geom": chunk_geom, "ens": chunk_ens,
+
+# =================================================================================================
+# long-lived substructure views across edits of the parent ("a substructure edit moves exactly the selected atoms")
+
+def chunk_staleview(spec, ctx):
+    import numpy as np
+    from molli.chem import Atom
+
+    mols = bundled_molecules(max_atoms=60)
+    for j in range(spec["n"]):
+        case = [spec["chunk"], j]
+        if not ctx.want(case):
+            continue
+        rng = ctx.rng("staleview", spec["chunk"], j)
+        if j % 2 == 0 and mols:
+            import molli as ml
+            name, m0 = mols[rng.randrange(len(mols))]
+            m = ml.Molecule(m0)
+        else:
+            name, m = generated_molecule(rng, rng.choice(["tree", "ring", "graph"]))
+        n = m.n_atoms
+        if n < 6:
+            continue
+        sel = sorted(rng.sample(range(2, n), rng.randrange(2, max(3, n // 2))))
+        members = [m.atoms[i] for i in sel]
+        how = rng.choice(["substructure", "substructure", "heavy"])
+        view = m.heavy if how == "heavy" else m.substructure(members if rng.random() < 0.5 else sel)
+        members = list(view.atoms)
+        _ = np.array(view.coords)           # touch the view once before the parent changes
+        edits = []
+        for _e in range(rng.randrange(1, 4)):
+            outsiders = [a for a in m.atoms if not any(a is x for x in members)]
+            r = rng.random()
+            if r < 0.6 and outsiders:
+                # prefer deleting an atom that stands before a member (shifts the members' row indices)
+                first_member = min(m.atoms.index(a) for a in members)
+                early = [a for a in outsiders if m.atoms.index(a) < first_member]
+                victim = rng.choice(early or outsiders)
+                edits.append(("del_atom", m.atoms.index(victim)))
+                m.del_atom(victim)
+            elif r < 0.85:
+                m.add_atom(Atom("H"), [rng.uniform(-9, 9) for _k in range(3)])
+                edits.append(("add_atom",))
+            else:
+                m.translate([0.5, -0.25, 0.125])
+                edits.append(("translate-parent",))
+        before = {id(a): np.array(m.coords[m.atoms.index(a)]) for a in m.atoms}
+        v = np.array([rng.uniform(-3, 3) for _k in range(3)])
+        op = rng.choice(["translate", "transform", "coords-setter"])
+        desc = {"op": f"stale-view:{op}", "molecule": name, "view": how, "n_selected": len(members), "parent_edits": edits}
+        ctx.case(case, dkey=(name, tuple(sel), tuple(e[0] for e in edits), op), nontrivial=any(e[0] == "del_atom" for e in edits),
+                 sample=desc)
+        R = random_rotation(rng)
+        try:
+            if op == "translate":
+                view.translate(v)
+            elif op == "transform":
+                view.transform(R)
+            else:
+                view.coords = np.array(view.coords) + v
+        except Exception as e:  # noqa: BLE001
+            ctx.violation(f"stale-view:{op}:raises:{type(e).__name__}", case=case, err=repr(e)[:200], **desc)
+            continue
+        ctx.count("oracle.stale-view")
+        bad_moved, bad_member = None, None
+        for a in m.atoms:
+            now = m.coords[m.atoms.index(a)]
+            was = before[id(a)]
+            if any(a is x for x in members):
+                want = was @ R if op == "transform" else was + v
+                if not np.allclose(now, want, rtol=0, atol=1e-9 * (1 + np.abs(want).max())):
+                    bad_member = m.atoms.index(a)
+            elif not np.array_equal(now, was):
+                bad_moved = m.atoms.index(a)
+        if bad_moved is not None:
+            ctx.violation(f"stale-view:{op}:unselected-atom-moved-after-parent-edit", case=case, atom=bad_moved, **desc)
+        if bad_member is not None:
+            ctx.violation(f"stale-view:{op}:selected-atom-not-moved-as-requested-after-parent-edit", case=case, atom=bad_member, **desc)
+
+KINDS = {"staleview": chunk_staleview, "testsuite": chunk_testsuite, "rotvec": chunk_rotvec, "rotaxis": chunk_rotaxis, "geom": chunk_geom, "ens": chunk_ens,
          "dihedral": chunk_dihedral, "align": chunk_align, "realistic": chunk_realistic}
 
 
